@@ -30,6 +30,10 @@ impl Profile {
     pub fn recursive() -> Self {
         Profile { rules: (3, 6), depth: 3, stack_ops: 1, predicates: 1, counted: 0, unicode: false, kinds: true, ws: None, comment: None, shadow: false, skip_rule_kinds_k1: false }
     }
+    /// many rule references under options, choices, repetitions, predicates and PUSH (C16)
+    pub fn getter() -> Self {
+        Profile { rules: (4, 7), depth: 3, stack_ops: 1, predicates: 3, counted: 1, unicode: true, kinds: true, ws: None, comment: Some(false), shadow: false, skip_rule_kinds_k1: false }
+    }
     pub fn stack() -> Self {
         Profile { rules: (3, 6), depth: 3, stack_ops: 6, predicates: 3, counted: 1, unicode: false, kinds: true, ws: None, comment: Some(false), shadow: false, skip_rule_kinds_k1: false }
     }
